@@ -1254,6 +1254,9 @@ func (r *Run) onPanic(st *State, fr *Frame, x *ssa.Panic) {
 			cond = Or(cond, env.evalBool(c.Expr))
 		}
 		r.oblige(st, "nopanic", spec.Props, "explicit panic at "+r.v.pos(x.Pos()), cond)
+		last := r.obligs[len(r.obligs)-1]
+		last.Env = r.specEnv(st, top, "post")
+		last.Spec = spec
 	}
 }
 
